@@ -20,3 +20,26 @@ package resolver
 //@   ensures[C18] err == nil && auth != nil && (auth.ServerAddress == "" || hostOf(auth.ServerAddress) == host) && auth.Username == "" && auth.IdentityToken != "" ==> result0 == "" && result1 == auth.IdentityToken
 //@   ensures[C18] auth != nil && auth.ServerAddress == "" && (auth.Username != "" || auth.IdentityToken != "") ==> err == nil
 //@   ensures[C18] err != nil ==> result0 == "" && result1 == ""
+
+// The credential function handed to the registry authorizer asks the keychains the caller configured -- that very list,
+// on every request (no layer in between that could remember an answer of an earlier pull). keychains(l): l is the list
+// the caller passed (a name, introduced by the precondition of the constructor); the host-configuration closure
+// captures that list (`captures`: checked where the closure is created) and hands it to multiCredsFuncs unchanged.
+//@ uf keychains(ref) bool
+//@ func github.com/hashicorp/go-retryablehttp.NewClient
+//@   trusted
+//@   ensures result != nil && result.HTTPClient != nil
+//@ func RegistryHostsFromConfig
+//@   props C18
+//@   requires keychains(ref(credsFuncs))
+//@ func RegistryHostsFromConfig$1
+//@   props C18
+//@   captures keychains(ref(credsFuncs))
+//@   loop 0 invariant keychains(ref(credsFuncs))
+//@ func multiCredsFuncs
+//@   props C18
+//@   requires[C18] keychains(ref(credsFuncs))
+// ... and its answer is the first non-empty answer of those keychains, asked now
+//@ func multiCredsFuncs$1
+//@   props C18
+//@   requires forall i int :: 0 <= i && i < len(credsFuncs) ==> credsFuncs[i] != nil
